@@ -98,6 +98,39 @@ def place_obstacle(w, t, plan, steps, kind="dir"):
     return None, False                 # this file is not written under these inputs: no fault occurs
 
 
+UNPRIV = 65534
+
+
+class World17(C.World):
+    """World whose tool runs can be made as an unprivileged user (uid set): the checks usually run as root, for whom a
+    read-only directory is no obstacle; as nobody, a generated file in a directory without write permission can be opened
+    and truncated but not removed."""
+    uid = None
+
+    def own(self):
+        if os.geteuid() != 0:
+            return
+        self.uid = UNPRIV
+        for d, _, fs in os.walk(self.sb.root):
+            os.chown(d, UNPRIV, UNPRIV)
+            for f in fs:
+                os.chown(os.path.join(d, f), UNPRIV, UNPRIV)
+
+    def _exec(self, argv, stdin=None, fsize0=False):
+        if self.uid is None:
+            return super()._exec(argv, stdin=stdin, fsize0=fsize0)
+        import subprocess
+        if fsize0:
+            blocks = 0 if fsize0 is True else int(fsize0)
+            argv = ["/bin/sh", "-c", "trap '' XFSZ; ulimit -f %d; exec \"$@\"" % blocks, "sh"] + list(argv)
+        try:
+            r = subprocess.run(argv, cwd=self.sb.root, input=stdin, stdout=subprocess.PIPE, stderr=subprocess.STDOUT,
+                               text=True, env=vlib.ENV, timeout=120, user=self.uid, group=self.uid)
+            return r.returncode, r.stdout
+        except subprocess.TimeoutExpired:
+            return -1, "TIMEOUT"
+
+
 def remove_obstacle(w, t):
     """Take the obstacle away again, whatever the tool did to it (a run that deletes it must not crash the check)."""
     p = w.out() if t == "<outdir>" else w.out(t)
@@ -120,8 +153,10 @@ def run_fault(case):
     sched = [[0], [0] if desc["cfg"].get("type_mappings") else []]
     steps, obs = [], {}
     with vlib.Sandbox("c17") as sb:
-        w = C.World(sb, case["entry"])
+        w = World17(sb, case["entry"])
         w.set_desc(desc)
+        if case.get("rmfail"):
+            w.own()
         if case["timing"] in ("after_edit", "after_loss", "forced"):
             r0 = w.run()
             steps.append(["run", sched, False, None])
@@ -177,11 +212,28 @@ def run_fault(case):
             tmp["cfg"]["force"] = True
             w.set_desc(tmp)
             steps.append(["set", C.sx_project(tmp), C.sx_cfg(tmp["cfg"])])
+        steps_before = list(steps)
+        if case.get("rmfail"):
+            # the removal of the truncated file is made to fail: the output directory loses its write permission (the
+            # generated files keep theirs), so File::create truncates, the write fails (EFBIG), remove_file fails (EACCES)
+            os.chmod(w.out(), 0o555)
         rf = w.run(force=(forced and case["entry"] == "cli"), fsize0={"fsize": True, "fsize_graph": 6}.get(kind, False))
+        if case.get("rmfail"):
+            os.chmod(w.out(), 0o755)
         steps.append(["run", sched, forced and case["entry"] == "cli", C.opt(k)])
+        steps_between = []
         if forced and case["entry"] != "cli":
             w.set_desc(desc)
             steps.append(["set", C.sx_project(desc), C.sx_cfg(desc["cfg"])])
+            steps_between.append(steps[-1])
+        if case.get("rmfail"):
+            left = os.path.isfile(w.out(t))
+            if left:
+                steps.append(["corrupt", C.model_file_name(t)])     # for the trace of the later runs only
+            base0 = start_desc(case)
+            obs["post_query"] = sx([C.sx_project(base0), C.sx_cfg(base0["cfg"]), steps_before, sched,
+                                    forced and case["entry"] == "cli", k, 0, False, steps_between])
+            obs["left"] = left
         obs["fault"] = state(rf)
         obs["record_matched_before"] = None
         if kind in ("fsize", "fsize_graph"):
@@ -257,6 +309,7 @@ def eval_fault(cases):
             if key in o:
                 recq.append(sx([dec(o[key]["decision"]), C.CACHE in o[key]["rewritten"]]))
     rec_it = iter(vlib.run_runner("c17-record", recq))
+    post_it = iter(vlib.run_runner("c17-post", [o["post_query"] for _, o, _ in res if "post_query" in o]))
     outs = []
     for case, (_, o, desc), t, ok_s in zip(cases, res, tr, orc):
         rec_ok = all(next(rec_it) == "true" for key in ("fault", "fault2") if key in o)
@@ -273,12 +326,27 @@ def eval_fault(cases):
                 and o["recovery2"]["decision"] == mr2[0])
         ok = ok_s == "true" and rec_ok and o["recovery2"]["decision"] == "up_to_date"
         kf = None
+        if "post_query" in o:
+            # post-open fault whose removal fails: judged against run17_c (Model/C17Trunc.v), the trace only supplies the
+            # second recovery run
+            po = next(post_it)
+            cls, p_fault, p_left, p_complete, p_vouches, p_rec, p_cur = po
+            corr = (f["decision"] == p_fault and o["left"] == (p_left == "true")
+                    and bool(f.get("truncated")) == (p_left == "true" and p_complete != "true")
+                    and f["vouches"] == (p_vouches == "true") and r["decision"] == p_rec
+                    and (not r["missing"] and not r["different"]) == (p_cur == "true")
+                    and o["recovery2"]["decision"] == mr2[0])
+            if cls == "true":
+                kf = "C17-2"
+            detail_post = po
         if two:
             f2, m2 = o["fault2"], runs[1]
             corr = corr and f2["decision"] == m2[0] and sorted(C.model_file_name(n) for n in f2["missing"]) == sorted(m2[1]) \
                 and f2["vouches"] == (m2[4] == "true")
             ok = ok and (f2["decision"] == "failed" or not o["binding2"]) and not (f2["vouches"] and (f2["missing"] or f2["different"]))
         detail = {"impl": o, "model": {"fault": mf, "recovery": mr, "recovery2": mr2}}
+        if "post_query" in o:
+            detail["model"]["post"] = detail_post
         if not (corr and ok):
             detail["sources"] = {fl["path"]: C.render_rs(fl) for fl in desc["files"]}
             detail["config"] = C.render_cfg(desc["cfg"])
@@ -306,6 +374,16 @@ def fault_cases(tier, rng):
                     for lost in ("index.ts", "events.ts", "types.ts"):
                         if lost != t:
                             cases.append({"entry": entry, "mode": mode, "viz": viz, "target": t, "timing": "after_loss", "lost": lost})
+            # post-open fault whose removal fails too (output directory without write permission): the truncated file stays.
+            # forced: the record matches = class C17-2; after_edit: the record test refuses; after_loss of another file: the
+            # presence test refuses
+            cases.append({"entry": entry, "mode": mode, "viz": False, "target": "types.ts", "timing": "forced", "kind": "fsize", "rmfail": True})
+            cases.append({"entry": entry, "mode": mode, "viz": True, "target": "types.ts", "timing": "forced", "kind": "fsize", "rmfail": True})
+            for e in ("field_add", "cmd_add"):
+                cases.append({"entry": entry, "mode": mode, "viz": False, "target": "types.ts", "timing": "after_edit", "edit": e,
+                              "kind": "fsize", "rmfail": True})
+            cases.append({"entry": entry, "mode": mode, "viz": False, "target": "types.ts", "timing": "after_loss", "lost": "index.ts",
+                          "kind": "fsize", "rmfail": True})
             # two consecutive faults at different writes
             for t, t2 in (("types.ts", "index.ts"), ("events.ts", "commands.ts"), ("index.ts", "dependency-graph.txt"),
                           ("dependency-graph.dot", "events.ts"), ("commands.ts", C.CACHE), (C.CACHE, "types.ts")):
